@@ -66,4 +66,5 @@ def matmul(
     x2 = numpoly.reshape(x2, x2.shape[:-2] + (1,) + x2.shape[-2:])
     x1, x2 = numpoly.broadcast_arrays(x1, x2)
     out_ = numpoly.multiply(x1, x2, out=out, **kwargs)
-    return numpoly.sum(out_, axis=-2)
+    # (booleans are summed as booleans, not counted)
+    return numpoly.sum(out_, axis=-2, dtype=bool if out_.dtype == bool else None)
